@@ -889,6 +889,8 @@ def project(v, rest):
                 v = K("usize", len(fields))
                 continue
             return ("proj", v, tuple(rest[i:]))
+        if h == "model" and len(v) > 2 and v[1] == "array-with" and e[0] == "len":
+            return project(v[2], rest[i:])        # element writes do not change the length
         if h == "vagg":
             if e[0] == "dc":
                 hit = None
